@@ -136,9 +136,13 @@ def _judge_chunk(specdir, workroot, name, tier, seed, entries, timeout, famlo, f
         vals = [e for e in entries if e["out"] == "value"]
         for e in vals:
             f.write("G%d == %s\n" % (e["id"], e["str"]))
+        def tree(ids):   # balanced IF tree: the definition of a row's result is found in O(log n)
+            if len(ids) == 1:
+                return "G%d" % ids[0]
+            m = len(ids) // 2
+            return "(IF zi <= %d THEN %s ELSE %s)" % (ids[m - 1], tree(ids[:m]), tree(ids[m:]))
         if vals:
-            f.write("Got(zi) == CASE " + "\n  [] ".join("zi = %d -> G%d" % (e["id"], e["id"]) for e in vals)
-                    + "\n  [] OTHER -> FALSE\n")
+            f.write("Got(zi) == " + tree(sorted(e["id"] for e in vals)) + "\n")
         else:
             f.write("Got(zi) == FALSE\n")
         f.write("====\n")
